@@ -32,7 +32,7 @@ pub fn cases(thorough: bool, seed: u64) -> Vec<Params> {
                     out.push(mk(k, V_PAIR, i | (j << 4)));
                 }
             }
-            for kind in 0..3u64 {
+            for kind in 0..4u64 {
                 if k <= 4 || i == 0 || i == k as u64 - 1 {
                     out.push(mk(k, V_KINDS, kind | (i << 4)));
                 }
@@ -161,6 +161,14 @@ pub fn run<C: Ciphersuite, L: Lab<C>>(lab: &mut L, p: &Params) {
                     invalid += 1;
                     match kind {
                         0 => msg = lab.message("another message"),
+                        3 => {
+                            // a replay: the (valid) signature and key of item 0 once more, under another message
+                            if pos > 0 {
+                                sig = made[0].sig;
+                                vk = made[0].vk;
+                            }
+                            msg = lab.message("replayed under another message");
+                        }
                         1 => {
                             let other = lab.adv_element("OtherKey");
                             lab.assume_ne_e(other, vk.to_element(), "another verifying key");
